@@ -110,7 +110,11 @@ CHECKS["C06"] = dict(
     units=[dict(name="queues1", src="harness/queues.cpp", cxxflags=["-DFAMILY=1"]),
            dict(name="queues2", src="harness/queues.cpp", cxxflags=["-DFAMILY=2"]),
            dict(name="queues3", src="harness/queues.cpp", cxxflags=["-DFAMILY=3"]),
-           dict(name="queues4", src="harness/queues.cpp", cxxflags=["-DFAMILY=4"], ldflags=BOOST)],
+           dict(name="queues4", src="harness/queues.cpp", cxxflags=["-DFAMILY=4"], ldflags=BOOST),
+           dict(name="queues1-hb", src="harness/queues.cpp", cxxflags=["-DFAMILY=1"], args=["--hb"]),
+           dict(name="queues2-hb", src="harness/queues.cpp", cxxflags=["-DFAMILY=2"], args=["--hb"]),
+           dict(name="queues3-hb", src="harness/queues.cpp", cxxflags=["-DFAMILY=3"], args=["--hb"]),
+           dict(name="queues4-hb", src="harness/queues.cpp", cxxflags=["-DFAMILY=4"], ldflags=BOOST, args=["--hb"], thorough_only=True)],
     rule=LIN_RULE,
     explanation="MSQueue, MoirQueue, BasketQueue, OptimisticQueue (HP and DHP, item counter / seq_cst variants), RWQueue (scheduler mutex and the shipped spin lock), "
                 "FCQueue (elimination on/off, std::list back end): every explored execution's call/return history (plus a sequential drain) must be linearizable to a FIFO queue",
@@ -120,7 +124,7 @@ CHECKS["C06"] = dict(
 
 CHECKS["C07"] = dict(
     title="bounded Vyukov queue",
-    units=[dict(name="bounded", src="harness/bounded.cpp")],
+    units=[dict(name="bounded", src="harness/bounded.cpp"), dict(name="bounded-hb", src="harness/bounded.cpp", args=["--hb"])],
     rule=LIN_RULE,
     explanation="VyukovMPMCCycleQueue value (dynamic and static buffers, capacities 2, 4, 8), intrusive, and single-consumer front()/pop_front() variants, with the ring cycled "
                 "0..3 laps before the window; histories must be linearizable to a bounded FIFO where enqueue fails only at size == capacity and dequeue only at size == 0",
@@ -131,7 +135,10 @@ CHECKS["C09"] = dict(
     title="stacks are linearizable LIFO",
     units=[dict(name="stacks1", src="harness/stacks.cpp", cxxflags=["-DFAMILY=1"]),
            dict(name="stacks2", src="harness/stacks.cpp", cxxflags=["-DFAMILY=2"]),
-           dict(name="stacks3", src="harness/stacks.cpp", cxxflags=["-DFAMILY=3"], args=["--property", "C09"], ldflags=BOOST)],
+           dict(name="stacks3", src="harness/stacks.cpp", cxxflags=["-DFAMILY=3"], args=["--property", "C09"], ldflags=BOOST),
+           dict(name="stacks1-hb", src="harness/stacks.cpp", cxxflags=["-DFAMILY=1"], args=["--hb"]),
+           dict(name="stacks2-hb", src="harness/stacks.cpp", cxxflags=["-DFAMILY=2"], args=["--hb"]),
+           dict(name="stacks3-hb", src="harness/stacks.cpp", cxxflags=["-DFAMILY=3"], args=["--property", "C09", "--hb"], ldflags=BOOST, thorough_only=True)],
     rule=LIN_RULE,
     aux_names=["quiescent_states", "elimination_collisions", "aux2", "aux3"],
     explanation="TreiberStack (HP in-place and classic scan, DHP; elimination off, and on with collision arrays of 1 and 2 slots, static and dynamic, spin and mutex slot locks, "
